@@ -376,7 +376,7 @@ def apply_forwards_to_super(num_args=0, named_args=(), *member_names,
 
     """
     return partial(_apply_forwards_to_super, member_names,
-                   ((0,) + named_args), kwargs)
+                   ((num_args,) + named_args), kwargs)
 
 
 def _apply_forwards_to_super(member_names, m_args, m_kwargs, cls):
